@@ -101,19 +101,19 @@ theorem trail_seqFirst_ok {items : List (Option TrailEl × Outcome Val)} {vs : L
 /-! ### ALL -/
 
 /-- the LoadErrors of the failing items, each with the item's trail element pushed, in order -/
-def sweepErrs (items : List (Option TrailEl × Outcome Val)) : List LErr :=
+def trailSweepErrs (items : List (Option TrailEl × Outcome Val)) : List LErr :=
   items.filterMap fun it =>
     match it.2 with
     | .err e => some (e.pushO it.1)
     | _ => none
 
 theorem trail_sweepAll_errs (items : List (Option TrailEl × Outcome Val)) :
-    (sweepAll items).errs = sweepErrs items := by
+    (sweepAll items).errs = trailSweepErrs items := by
   induction items with
-  | nil => simp [sweepAll, sweepErrs]
+  | nil => simp [sweepAll, trailSweepErrs]
   | cons it rest ih =>
     obtain ⟨el, o⟩ := it
-    cases o <;> simp_all [sweepAll, sweepErrs]
+    cases o <;> simp_all [sweepAll, trailSweepErrs]
 
 theorem trail_sweepAll_clean {items : List (Option TrailEl × Outcome Val)}
     (hd : (sweepAll items).diverged = false) (hu : (sweepAll items).unexpected = false) :
@@ -141,14 +141,14 @@ theorem trail_sweepAll_clean {items : List (Option TrailEl × Outcome Val)}
 theorem trail_finish_cases (items : List (Option TrailEl × Outcome Val)) :
     ((sweepAll items).finish = .diverge) ∨ ((sweepAll items).finish = .escape "ExceptionGroup") ∨
     ((∀ it ∈ items, trailClean it.2) ∧
-      ((sweepErrs items = [] ∧ (sweepAll items).finish = .ok (sweepAll items).vals) ∨
-       (sweepErrs items ≠ [] ∧ (sweepAll items).finish = .err (LErr.agg (sweepErrs items))))) := by
+      ((trailSweepErrs items = [] ∧ (sweepAll items).finish = .ok (sweepAll items).vals) ∨
+       (trailSweepErrs items ≠ [] ∧ (sweepAll items).finish = .err (LErr.agg (trailSweepErrs items))))) := by
   unfold Sweep.finish
   cases hd : (sweepAll items).diverged
   · cases hu : (sweepAll items).unexpected
     · refine Or.inr (Or.inr ⟨trail_sweepAll_clean hd hu, ?_⟩)
       rw [trail_sweepAll_errs]
-      cases he : sweepErrs items with
+      cases he : trailSweepErrs items with
       | nil => simp
       | cons a l => simp
     · simp
@@ -156,7 +156,7 @@ theorem trail_finish_cases (items : List (Option TrailEl × Outcome Val)) :
 
 theorem trail_finish_err {items : List (Option TrailEl × Outcome Val)} {e : LErr}
     (h : (sweepAll items).finish = .err e) :
-    e = LErr.agg (sweepErrs items) ∧ sweepErrs items ≠ [] ∧ ∀ it ∈ items, trailClean it.2 := by
+    e = LErr.agg (trailSweepErrs items) ∧ trailSweepErrs items ≠ [] ∧ ∀ it ∈ items, trailClean it.2 := by
   rcases trail_finish_cases items with h1 | h1 | ⟨hc, ⟨_, h1⟩ | ⟨hne, h1⟩⟩
   · rw [h1] at h; cases h
   · rw [h1] at h; cases h
@@ -172,16 +172,16 @@ theorem trail_finish_ok {items : List (Option TrailEl × Outcome Val)} {vs : Lis
     rcases hc it hit with hv | ⟨e, hee⟩
     · exact hv
     · exfalso
-      have : e.pushO it.1 ∈ sweepErrs items := by
-        unfold sweepErrs
+      have : e.pushO it.1 ∈ trailSweepErrs items := by
+        unfold trailSweepErrs
         exact List.mem_filterMap.mpr ⟨it, hit, by simp [hee]⟩
       simp [he] at this
   · rw [h1] at h; cases h
 
 /-- every collected error is a failing item's error with the item's trail element pushed -/
 theorem trail_mem_sweepErrs {items : List (Option TrailEl × Outcome Val)} {c : LErr}
-    (h : c ∈ sweepErrs items) : ∃ el e0, (el, Outcome.err e0) ∈ items ∧ c = e0.pushO el := by
-  unfold sweepErrs at h
+    (h : c ∈ trailSweepErrs items) : ∃ el e0, (el, Outcome.err e0) ∈ items ∧ c = e0.pushO el := by
+  unfold trailSweepErrs at h
   obtain ⟨⟨el, o⟩, hit, hc⟩ := List.mem_filterMap.mp h
   cases o <;> simp at hc
   exact ⟨el, _, hit, hc.symm⟩
@@ -352,7 +352,7 @@ theorem trail_loadIter_ok {cfg : Cfg} {f : Factory} {elem : Val → Outcome Val}
   · simp [hx] at h
 
 /-- what the tuple loader shows as the input of an arity error -/
-def tupleShown (cfg : Cfg) (d : Val) (xs : List Val) : Val :=
+def trailTupleShown (cfg : Cfg) (d : Val) (xs : List Val) : Val :=
   match cfg.trail with
   | .disable => d
   | _ => Val.tuple xs
@@ -362,8 +362,8 @@ theorem trail_loadTuple_err {cfg : Cfg} {loaders : List (Val → Outcome Val)} {
     (strictExcluded cfg d = true ∧ e = LErr.leaf "ExcludedTypeLoadError" d) ∨
     (strictExcluded cfg d = false ∧ d.iterElems = none ∧ e = LErr.leaf "TypeLoadError" d) ∨
     (strictExcluded cfg d = false ∧ ∃ xs, d.iterElems = some xs ∧
-      ((xs.length > loaders.length ∧ e = LErr.leaf "ExtraItemsLoadError" (tupleShown cfg d xs)) ∨
-       (xs.length < loaders.length ∧ e = LErr.leaf "NoRequiredItemsLoadError" (tupleShown cfg d xs)) ∨
+      ((xs.length > loaders.length ∧ e = LErr.leaf "ExtraItemsLoadError" (trailTupleShown cfg d xs)) ∨
+       (xs.length < loaders.length ∧ e = LErr.leaf "NoRequiredItemsLoadError" (trailTupleShown cfg d xs)) ∨
        (xs.length = loaders.length ∧
           seqMode cfg.trail (idxItems (zipApply loaders xs)) = .err e))) := by
   unfold loadTuple at h
